@@ -103,7 +103,21 @@ def cases(rng, quick, gr):
     for _ in range(40 if quick else 1500):
         r, c = rng.randint(1, 4), rng.randint(1, 4)
         ty = rng.choice(["int", "float", "complex"])
-        kind = rng.choice(["wrong-shape", "ragged", "transposed", "ragged-divisible", "one-dim-shape"])
+        kind = rng.choice(["wrong-shape", "ragged", "transposed", "ragged-divisible", "one-dim-shape", "ragged-fitting-shape", "ragged-fitting-shape"])
+        if kind == "ragged-fitting-shape":
+            # the number of rows and the total number of elements agree with the declared shape, the row lengths do not
+            if r < 2 or c < 2:
+                continue
+            lens = [c] * r
+            i, j = rng.sample(range(r), 2)
+            d = rng.randint(1, c - 1)
+            lens[i] += d
+            lens[j] -= d
+            use_p = rng.random() < 0.3
+            rows = ["    " + ", ".join(("{w%d}" % k if use_p and k == 0 and n_ > 1 else elem(rng, ty)) for k in range(n_)) for n_ in lens]
+            t = "%s array A[%d, %d] =\n%s\n" % (ty, r, c, "\n".join(rows))
+            yield {"tag": kind, "text": HDR + t + "Op(A) | 0\n"}
+            continue
         if kind == "wrong-shape":
             t = array_text(rng, ty, "A", r, c, (r + 1, c))
         elif kind == "transposed":
